@@ -6,7 +6,7 @@ import re
 import vlib
 from vlib import Check
 
-NT = 9
+NT = 10
 OPN = {0: "Lookup", 1: "Apply", 2: "Return", 3: "When", 4: "Cancel", 5: "Reset", 6: "Pkg", 7: "VarLookup"}
 
 
@@ -202,6 +202,18 @@ def run(replay=None):
             ck.obligation_broken("harness run stub/c12 (exit %d)" % rc, out[-2000:])
         return ck.finish()
     hs = [r for r in vlib.read_jsonl(obs) if r.get("kind") == "hist"]
+    # targets 8 and 9 are two methods of ONE interface variable. goom replaces the whole variable: a method that is not mocked
+    # while its sibling is answers "method not implements" (C07's subject). For C12 ("which instruction is in effect") that is
+    # the un-mocked state of the method, so it is read as Original -- only while the sibling really is mocked.
+    normalised = 0
+    for h in hs:
+        for row in h["probes"]:
+            for t, sib in ((8, 9), (9, 8)):
+                mine, other = row[3 * t:3 * t + 3], row[3 * sib:3 * sib + 3]
+                if all(g == "Panic:NotImplemented" for g in mine) and not all(g in ("Original", "Panic:NotImplemented") for g in other):
+                    row[3 * t:3 * t + 3] = ["Original"] * 3
+                    normalised += 1
+    ck.notes["interface_sibling_rows_read_as_original"] = normalised
     ck.coverage["evaluations"] = sum(len(h["ops"]) * 12 for h in hs)
     mix = {}
     for h in hs:
